@@ -4,15 +4,15 @@
 
   A value is `aZ + b` (fields `m_a`, `m_b`) plus the flag `m_is_bottom`; `a = 0` denotes the
   constant `b`.  `z_number::operator%` is `mpz_tdiv_r` (truncating: the remainder has the
-  sign of the dividend), so a "normalised" residue may be negative (`C(-1)|C(1)` is `2Z-1`),
-  and `operator/` with a negative constant divisor produces negative moduli.  The model
-  therefore lets `a` and `b` range over all of `Int`.
+  sign of the dividend); `normalize()` turns it into the standard form `a ≥ 0`, `0 ≤ b < a`
+  (`Cong.WF`).  The structure still lets `a` and `b` range over all of `Int`: the theorems do
+  not assume the standard form unless they say so.
 
   `is_top()` is the test `m_a == 1` alone: it also answers yes on bottom (whose hidden
-  fields are (1,0)) and no on `(-1)Z+0`.
+  fields are (1,0)).
 
-  Operations that can reach CRAB_ERROR (`operator<=`: `m_a % 0`; `operator%`:
-  CRAB_ERROR("unreachable")) return `Option`; `none` = CRAB_ERROR.
+  No operation of the class reaches CRAB_ERROR any more (every `%` and `/` of `z_number`
+  has a divisor that the preceding tests make non-zero).
 -/
 import CrabModel.Scalar.Interval
 
@@ -51,9 +51,26 @@ def gcd3 (x y z : Int) : Int := gcd x (gcd y z)
     (the quotient by a zero gcd, a CRAB_ERROR of z_number, is not reachable). -/
 def lcm (x y : Int) : Int := Int.tdiv (iabs (x * y)) (gcd x y)
 
+/-- loop of `bezout(x, y, u)` (extended Euclid) with fuel: state `(r0, r1, s0, s1)`;
+    `q = r0 / r1; (r0, r1, s0, s1) := (r1, r0 - q*r1, s1, s0 - q*s1)` while `r1 != 0`.
+    `|r1|` strictly decreases, so `|y| + 1` steps suffice. -/
+def bezoutLoop : Nat → Int → Int → Int → Int → Int × Int
+  | 0, r0, _, s0, _ => (r0, s0)
+  | fuel + 1, r0, r1, s0, s1 =>
+    if r1 = 0 then (r0, s0)
+    else
+      let q := Int.tdiv r0 r1
+      bezoutLoop fuel r1 (r0 - q * r1) s1 (s0 - q * s1)
+
+/-- `bezout(x, y, u)` : returns `(g, u)` with `g = gcd(x,y)` and `x*u ≡ g (mod y)` -/
+def bezout (x y : Int) : Int × Int := bezoutLoop (y.natAbs + 1) x y 1 0
+
 /-- `congruence(Number a, Number b)` followed by `normalize()`:
-    `if (m_a != 0) m_b = m_b % m_a` -/
-def mk' (a b : Int) : Cong := ⟨false, a, if a ≠ 0 then Int.tmod b a else b⟩
+    `if (m_a < 0) m_a = -m_a; if (m_a != 0) { m_b = m_b % m_a; if (m_b < 0) m_b += m_a; }` -/
+def mk' (a b : Int) : Cong :=
+  let a' := if a < 0 then -a else a
+  ⟨false, a',
+    if a' ≠ 0 then (let m := Int.tmod b a'; if m < 0 then m + a' else m) else b⟩
 
 /-- `congruence(Number n)` and the private `congruence(int n)` -/
 def ofInt (n : Int) : Cong := ⟨false, 0, n⟩
@@ -83,22 +100,13 @@ def contains (c : Cong) (k : Int) : Bool :=
 /-- `operator==` -/
 def beq (x o : Cong) : Bool := x.isBot == o.isBot && x.a == o.a && x.b == o.b
 
-/-- last line of `operator<=`: `(m_a % o.m_a == 0) && (m_b % o.m_a == o.m_b % o.m_a)`;
-    `m_a % 0` is CRAB_ERROR("z_number: division by zero") -/
-def leqFinal (x o : Cong) : Option Bool :=
-  if o.a = 0 then none
-  else some (Int.tmod x.a o.a == 0 && Int.tmod x.b o.a == Int.tmod o.b o.a)
-
 /-- `operator<=` -/
-def leq (x o : Cong) : Option Bool :=
-  if x.isBot then some true
-  else if o.isBot then some false
-  else if x.a = 0 ∧ o.a = 0 then some (x.b == o.b)
-  else if x.a = 0 then
-    (if Int.tmod x.b o.a = Int.tmod o.b o.a then some true else leqFinal x o)
-  else if o.a = 0 then
-    (if Int.tmod x.b x.a = Int.tmod o.b x.a then some false else leqFinal x o)
-  else leqFinal x o
+def leq (x o : Cong) : Bool :=
+  if x.isBot then true
+  else if o.isBot then false
+  else if x.a = 0 ∧ o.a = 0 then x.b == o.b
+  else if o.a = 0 then false
+  else Int.tmod x.a o.a == 0 && Int.tmod (x.b - o.b) o.a == 0
 
 /-- `operator|` -/
 def join (x o : Cong) : Cong :=
@@ -114,8 +122,11 @@ def meet (x o : Cong) : Cong :=
   else if x.a = 0 then (if Int.tmod (x.b - o.b) o.a = 0 then x else bot)
   else if o.a = 0 then (if Int.tmod (o.b - x.b) x.a = 0 then o else bot)
   else
-    let g := gcd x.a o.a
-    if Int.tmod x.b g = Int.tmod o.b g then mk' (lcm x.a o.a) (imax x.b o.b) else bot
+    let gu := bezout x.a o.a
+    let g := gu.1
+    let u := gu.2
+    let d := o.b - x.b
+    if Int.tmod d g = 0 then mk' (lcm x.a o.a) (x.b + x.a * (u * Int.tdiv d g)) else bot
 
 /-- `operator||` : "Equivalent to join, domain is flat" -/
 def widen (x o : Cong) : Cong := join x o
@@ -145,37 +156,26 @@ def mul (x o : Cong) : Cong :=
   else if (x.isTop || o.isTop) && x.a != 0 && o.a != 0 then top
   else mk' (gcd3 (x.a * o.a) (x.a * o.b) (o.a * x.b)) (x.b * o.b)
 
-/-- the number `N` of `operator/` and `operator%` as coded:
-    `o.m_a * (((m_b - o.m_b) / o.m_a) + o.m_b)` -/
-def divN (x o : Cong) : Int := o.a * (Int.tdiv (x.b - o.b) o.a + o.b)
-
 /-- `operator/` (= `SDiv`) -/
 def div (x o : Cong) : Cong :=
   if x.isBot || o.isBot then bot
   else if o.a = 0 ∧ o.b = 0 then bot           -- `o == congruence(0)`
   else if x.isTop || o.isTop then top
   else if o.a = 0 then
-    (if Int.tmod x.a o.b = 0 then mk' (Int.tdiv x.a o.b) (Int.tdiv x.b o.b) else top)
-  else if x.a = 0 then
-    let n := divN x o
-    if n > 0 then mk' (Int.tdiv x.b n) 0 else mk' 0 0
+    (if x.a = 0 then ofInt (Int.tdiv x.b o.b)
+     else if Int.tmod x.a o.b = 0 ∧ Int.tmod x.b o.b = 0 then mk' (Int.tdiv x.a o.b) (Int.tdiv x.b o.b)
+     else top)
+  else if x.isZero then x
   else top
 
-/-- `operator%` (= `SRem`); `none` is CRAB_ERROR("unreachable") -/
-def srem (x o : Cong) : Option Cong :=
-  if x.isBot || o.isBot then some bot
-  else if o.a = 0 ∧ o.b = 0 then some bot
-  else if x.isTop || o.isTop then some top
-  else if o.a = 0 then
-    (if Int.tmod x.a o.b = 0 then some (mk' 0 (Int.tmod x.b o.b))
-     else some (mk' (gcd x.a o.b) x.b))
-  else if x.a = 0 then
-    let n := divN x o
-    if n ≤ 0 then some (mk' x.a x.b)
-    else if x.b = n then some (mk' (gcd o.b o.a) x.b)
-    else if Int.tdiv x.b n ≥ 2 then some (mk' x.b x.b)
-    else none
-  else some (mk' (gcd3 x.a o.a o.b) x.b)
+/-- `operator%` (= `SRem`) -/
+def srem (x o : Cong) : Cong :=
+  if x.isBot || o.isBot then bot
+  else if o.a = 0 ∧ o.b = 0 then bot
+  else if x.isTop || o.isTop then top
+  else if x.a = 0 ∧ o.a = 0 then ofInt (Int.tmod x.b o.b)
+  else if o.a = 0 ∧ Int.tmod x.a o.b = 0 ∧ Int.tmod x.b o.b = 0 then ofInt 0
+  else mk' (gcd3 x.a o.a o.b) x.b
 
 /-- `UDiv` : top, whatever the operands -/
 def udiv (_x _o : Cong) : Cong := top
@@ -247,9 +247,10 @@ def lshr (x o : Cong) : Cong :=
     | none => top
   else top
 
-/-- what every value built through the public API satisfies: the residue is reduced
-    (`|b| < |a|` when `a ≠ 0`) and bottom carries the fields of `congruence(false)` -/
-def WF (c : Cong) : Prop := (c.a ≠ 0 → c.b.natAbs < c.a.natAbs) ∧ (c.isBot = true → c.a = 1 ∧ c.b = 0)
+/-- the standard form every value built through the public API has: non-negative modulus,
+    residue in `[0, a)` when `a ≠ 0`, and bottom carries the fields of `congruence(false)` -/
+def WF (c : Cong) : Prop :=
+  0 ≤ c.a ∧ (c.a ≠ 0 → 0 ≤ c.b ∧ c.b < c.a) ∧ (c.isBot = true → c.a = 1 ∧ c.b = 0)
 instance (c : Cong) : Decidable (WF c) := by unfold WF; exact inferInstance
 
 def toString (c : Cong) : String :=
